@@ -46,6 +46,8 @@ FIELDS = {
     "holder": A(Z, Z), "conn": A(Z, Z), "g_finished": Z,
     # ghost: class tag of a reference (one allocation pool for jobs, events, async results)
     "is_job": A(Z, Bo),
+    # ghost: the job a finish event belongs to (events are not shared between jobs)
+    "ev_owner": A(Z, Z),
 }
 
 JOB_FIELD = {  # python attribute -> (state array, kind)
@@ -62,8 +64,8 @@ INDEX_TYPES.update({"e_set": ("event",), "a_ready": ("waiter",), "a_value": ("wa
                     "a_any": ("waiter",), "id_has": ("id",), "id_val": ("id",), "q_has": ("chan",), "Q": ("chan", "job"),
                     "W": ("waiter",), "TQ": ("job",), "c_has": ("chan",), "c_error": ("chan",), "c_timeout": ("chan",),
                     "c_killed": ("chan",), "c_success": ("chan",), "R_has": ("conn", "id"), "R_val": ("conn", "id"),
-                    "holder": ("job",), "conn": ("job",), "is_job": ("job",)})
-VALUE_TYPES = {"a_value": "job", "id_val": "job", "R_val": "job", "holder": "waiter", "conn": "conn", "j_chan": "chan",
+                    "holder": ("job",), "conn": ("job",), "is_job": ("job",), "ev_owner": ("event",)})
+VALUE_TYPES = {"ev_owner": "job", "a_value": "job", "id_val": "job", "R_val": "job", "holder": "waiter", "conn": "conn", "j_chan": "chan",
                "j_jobid": "id", "j_event": "event"}
 TYPING = Typing(INDEX_TYPES, VALUE_TYPES, {"heap_min": "job", "timeoutq_min": "job"})
 VAR_TYPES = ["job", "waiter", "chan", "conn", "id"]
@@ -325,6 +327,8 @@ def install(ex):
                     if I.decide(z3.Select(S["j_err_none"], ref.z)):
                         return None
                     return SStr(z3.Select(S["j_err"], ref.z))
+            if name == "__dict__":
+                return PObj("jobdict", {"job": ref, "removed": set()})
             m = I.find_method(job_cls, name)
             if m is not None:
                 return BoundMethod(ref, m)
@@ -333,6 +337,8 @@ def install(ex):
             mm = ex.methods.get(("event", name))
             if mm:
                 return BoundMethod(ref, mm)
+        if ref.cls == "asyncresult" and name == "value":
+            return SRef("job", z3.Select(S["a_value"], ref.z))
         if ref.cls == "asyncresult":
             mm = ex.methods.get(("asyncresult", name))
             if mm:
@@ -341,6 +347,18 @@ def install(ex):
 
     def heap_setattr(I, ref, name, val):
         S = st(I)
+        if ref.cls == "job" and name == "__dict__":
+            # self.__dict__ = state: every attribute comes from the pickled snapshot
+            if not (isinstance(val, PObj) and val.cls == "jobdict"):
+                raise Undecided("job.__dict__ = non-snapshot")
+            src = val.fields["job"].z
+            for attr, (arr, kind) in JOB_FIELD.items():
+                if attr in val.fields["removed"]:
+                    continue
+                for a in ([arr] if arr else ["j_err_none", "j_err"]):
+                    S[a] = z3.Store(S[a], ref.z, z3.Select(S[a], src))
+            I.ghost.setdefault("dict_assigned", []).append((ref, val))
+            return
         if ref.cls == "job" and name in JOB_FIELD:
             arr, kind = JOB_FIELD[name]
             if kind == "bool":
@@ -353,6 +371,7 @@ def install(ex):
                 S[arr] = z3.Store(S[arr], ref.z, z3.IntVal(0) if val is None else I._int_term(val))
             elif kind == "ref:event":
                 S[arr] = z3.Store(S[arr], ref.z, val.z)
+                S["ev_owner"] = z3.Store(S["ev_owner"], val.z, ref.z)      # ghost
             elif kind == "json":
                 S[arr] = z3.Store(S[arr], ref.z, json_id(I, val))
             elif kind == "error":
@@ -378,6 +397,17 @@ def install(ex):
             return z3.IntVal(-1)     # the empty dict literal
         return I.fresh("json", Z)
 
+    # job.__dict__ as a snapshot object (job._json() / __getstate__: copy minus finish_event)
+    ex.methods[("jobdict", "copy")] = Model("dict.copy of job.__dict__",
+                                            lambda I, d: PObj("jobdict", {"job": d.fields["job"], "removed": set(d.fields["removed"])}))
+
+    def jobdict_del(I, d, k):
+        if not isinstance(k, str):
+            raise Undecided("del on job.__dict__ with non-constant key")
+        if k != "finish_event" and k not in JOB_FIELD:
+            I.throw("KeyError", k)
+        d.fields["removed"].add(k)
+    ex.delitem_hooks["jobdict"] = jobdict_del
     ex.heap_getattr = heap_getattr
     ex.heap_setattr = heap_setattr
     ex.truthy_hooks["json"] = lambda I, v: I.decide(z3.And(v.fields["id"] != 0, v.fields["id"] != -1))
@@ -478,19 +508,26 @@ def install(ex):
     ex.delitem_hooks["iddict"] = id_delitem
     ex.contains_hooks["iddict"] = lambda I, d, k: d.has(I, key_term(I, k)) if k is not None else False
     def id_values(I, d):
+        # dict views are iterated as snapshots (the code wraps them in list(...))
+        S = st(I)
         if d.conn is None:
-            return AbsIter("idvalues", set_iter(lambda I2: st(I2)["id_has"], lambda I2, i: SRef("job", z3.Select(st(I2)["id_val"], i)), "id"))
+            has, val = S["id_has"], S["id_val"]
+            return AbsIter("idvalues", set_iter(lambda I2: has, lambda I2, i: SRef("job", z3.Select(val, i)), "id"))
         k = d.conn
+        has, val = z3.Select(S["R_has"], k), z3.Select(S["R_val"], k)
 
         def release(I2, i):
             hook = I2.ghost.get("on_take_running")
             if hook:
                 hook(I2, k, i)
-        return AbsIter("idvalues", set_iter(lambda I2: z3.Select(st(I2)["R_has"], k),
-                                            lambda I2, i: SRef("job", sel2(st(I2)["R_val"], k, i)), "id", release, stable=False))
+        return AbsIter("idvalues", set_iter(lambda I2: has, lambda I2, i: SRef("job", z3.Select(val, i)), "id", release))
     ex.methods[("iddict", "values")] = Model("dict.values view", id_values)
-    ex.methods[("iddict", "items")] = Model("dict.items view", lambda I, d: AbsIter("iditems", set_iter(
-        lambda I2: st(I2)["id_has"], lambda I2, i: (SInt(i), SRef("job", z3.Select(st(I2)["id_val"], i))), "id")))
+
+    def id_items(I, d):
+        S = st(I)
+        has, val = S["id_has"], S["id_val"]
+        return AbsIter("iditems", set_iter(lambda I2: has, lambda I2, i: (SInt(i), SRef("job", z3.Select(val, i))), "id"))
+    ex.methods[("iddict", "items")] = Model("dict.items view", id_items)
 
     def len_hook(I, v):
         raise Undecided("len of abstract container")
@@ -526,6 +563,7 @@ def install(ex):
     ex.truthy_hooks["jobheap"] = heap_truthy
     ex.len_hooks["jobheap"] = lambda I, h: SInt(heap_size(h.counts(I)))
     ex.len_hooks["iddict"] = lambda I, d: SInt(dict_size(st(I)["id_has"]))
+    ex.len_hooks["idvalues"] = lambda I, d: SInt(I.fresh("len_of_view", Z))
 
     def heap_getitem(I, h, idx):
         if idx != 0:
@@ -578,6 +616,35 @@ def install(ex):
         m = tq_head(I)
         return I.decide(z3.Select(S["TQ"], m) > 0)
     ex.truthy_hooks["timeoutq"] = tq_truthy
+
+    def tq_append(I, h, item):
+        t, j = item
+        S = st(I)
+        I.oblige("timeoutq.append_pair_is_job_timeout", I.eq_term(t, SReal(z3.Select(S["j_timeout"], j.z))))
+        S["TQ"] = z3.Store(S["TQ"], j.z, z3.Select(S["TQ"], j.z) + 1)
+    ex.methods[("timeoutq", "append")] = Model("list.append on timeoutq", tq_append)
+
+    def workq_setattr(I, obj, name, val):
+        if name == "timeoutq" and isinstance(val, list) and not val:
+            st(I)["TQ"] = z3.K(Z, z3.IntVal(0))
+            return True        # keep the abstract view object
+        return False
+    ex.setattr_hooks[workq_cls.name] = workq_setattr
+
+    def workq_init(I, w):
+        """workq.__init__ on the abstract state: empty containers, count 0"""
+        S = st(I)
+        S["q_has"] = z3.K(Z, False)
+        S["Q"] = z3.K(Z, z3.K(Z, z3.IntVal(0)))
+        S["W"] = z3.K(Z, False)
+        S["id_has"] = z3.K(Z, False)
+        S["TQ"] = z3.K(Z, z3.IntVal(0))
+        S["c_has"] = z3.K(Z, False)
+        fresh = make_workq(I, workq_cls)
+        w.fields.update(fresh.fields)
+        w.fields["count"] = 0
+        return None
+    ex.workq_init = workq_init
 
     def tq_getitem(I, h, idx):
         if idx != 0:
@@ -808,6 +875,16 @@ def inv_clauses(S, j, w, c, k, i):
     # I12/I13: an error or a drop deadline is only ever recorded on a finished job
     cl["I12_error_implies_done"] = z3.Implies(z3.And(valid_job(S, j), z3.Not(z3.Select(S["j_err_none"], j))), done)
     cl["I13_deadline_implies_done"] = z3.Implies(z3.And(valid_job(S, j), z3.Select(S["j_deadline"], j) != 0), done)
+    # C17: a ready waiter holds a job of a channel it asked for; the finish event mirrors `done`
+    vj = z3.Select(S["a_value"], w)
+    cl["I14_handed_job_is_eligible"] = z3.Implies(
+        z3.And(z3.Select(S["W"], w), z3.Select(S["a_ready"], w)),
+        z3.Or(z3.Select(S["a_any"], w), z3.Select(z3.Select(S["a_watch"], w), z3.Select(S["j_chan"], vj))))
+    ev = z3.Select(S["j_event"], j)
+    cl["I15_finish_event_mirrors_done"] = z3.Implies(
+        z3.And(valid_job(S, j), z3.Select(S["j_serial"], j) != 0),
+        z3.And(z3.Select(S["e_set"], ev) == done, ev >= 1, ev < S["alloc"], z3.Not(z3.Select(S["is_job"], ev)),
+               z3.Select(S["ev_owner"], ev) == j))
     cl["I11_nowhere_without_serial"] = z3.Implies(
         z3.And(valid_job(S, j), z3.Select(S["j_serial"], j) == 0),
         z3.And(holder == 0, conn == 0))
@@ -879,6 +956,32 @@ def oblige_inv(I, S, prefix="inv"):
     """one obligation per clause, the outer forall skolemised by fresh typed constants"""
     for name, f in inv_quantified(S):
         I.oblige(f"{prefix}.{name}", f)
+
+
+def preenall_contract(I, w):
+    """contract of workq._preenall (iterates _preenjobq over every channel queue; the body
+    of _preenjobq is verified below, the iteration itself is assumed): finished jobs are
+    skimmed off the queue heads, nothing else changes"""
+    S = st(I)
+    Q0 = S["Q"]
+    Q1 = I.fresh("preened_Q", A(Z, A(Z, Z)))
+    done = S["j_done"]
+    prio, serial = S["j_prio"], S["j_serial"]
+    I.assume(Forall(["chan", "job"], lambda c, x: z3.And(
+        sel2(Q1, c, x) <= sel2(Q0, c, x), sel2(Q1, c, x) >= 0,
+        z3.Implies(sel2(Q1, c, x) < sel2(Q0, c, x), z3.Select(done, x))), "preen_removes_only_finished"))
+
+    def heads(c):
+        qc = z3.Select(Q1, c)
+        h = heap_min(qc, prio, serial)
+        return z3.Implies(z3.Select(qc, h) > 0, z3.Not(z3.Select(done, h)))
+    I.assume(Forall(["chan"], heads, "preen_heads_unfinished"))
+    S["Q"] = Q1
+    hook = I.ghost.get("after_preen")
+    if hook:
+        hook()
+    return None
+
 
 
 def state_loop_spec(extra=None, extra_havoc=(), rebinding=None):
